@@ -391,6 +391,40 @@ def candidates(prog, ck, include_neq=False):
                     p['rules'][i] = r2
                 return p
             out.append(('retype_column', retype))
+    # a predicate one of whose rules passes a column on by variables only
+    # (`P(v: x) :- D(f: x)`): another rule / fact of P gives that column another type.
+    # The clash exists only between two rules and only through the callee's signature.
+    for idx, r in enumerate(prog['rules']):
+        for c, (hf, h) in enumerate(r['head']):
+            if h[0] != 'var' or not r['body'] or \
+                    not all(l[0] == 'call' and all(a[1][0] == 'var' for a in l[2])
+                            for l in r['body']):
+                continue
+            others = [j for j, r2 in enumerate(prog['rules'])
+                      if j != idx and r2['pred'] == r['pred'] and c < len(r2['head'])
+                      and r2['head'][c][0] == hf]
+            for j in others:
+                r2 = prog['rules'][j]
+                h2 = r2['head'][c][1]
+                if not r2['body'] and retype_lit(h2, 0) is not None:
+                    def refact(rng, j=j, c=c, h2=h2):
+                        new = retype_lit(h2, rng.randrange(3))
+                        return None if new is None else replace_site(
+                            prog, j, (0, c, 1), new)
+                    out.append(('relay_clash', refact))
+                elif h2[0] == 'var' and len(r2['body']) == 1 and r2['body'][0][0] == 'call':
+                    l = r2['body'][0]
+                    ty = atom_of(ck, h2)
+                    s2 = ck.sig.get(l[1]) or {}
+                    named = [f for f, t in sorted(s2.items(), key=lambda kv: str(kv[0]))
+                             if isinstance(f, str) and f != 'logica_value'
+                             and typeref.ground(t) and render(t) != ty]
+                    k = [i for i, a in enumerate(l[2]) if a[1] == h2]
+                    if named and len(k) == 1 and isinstance(l[2][k[0]][0], str):
+                        def recol(rng, j=j, k=k[0], named=named, h2=h2):
+                            return replace_site(prog, j, (2, 0, 2, k),
+                                                (rng.choice(named), h2))
+                        out.append(('relay_clash', recol))
     return out
 
 
@@ -436,9 +470,11 @@ def retype_lit(h, mode):
 
 # ----------------------------------------------------------------- augmentations
 
-def augment(prog, ck, rng, p_bool=0.5, p_open=0.4, p_nested=0.35, allow_inx=False):
+def augment(prog, ck, rng, p_bool=0.5, p_open=0.4, p_nested=0.35, allow_inx=False,
+            p_relay=0.5):
     """Type-preserving extensions of a generated program: a Bool column, an injectible
-    function over an open record, nested composite columns.  Returns (program, labels).
+    function over an open record, nested composite columns, a relay predicate (relay_rules).
+    Returns (program, labels).
     """
     labels = []
     rules = list(prog['rules'])
@@ -550,10 +586,89 @@ def augment(prog, ck, rng, p_bool=0.5, p_open=0.4, p_nested=0.35, allow_inx=Fals
             labels.append('aug:open_record_fun')
             if arg[0] == 'rec':
                 labels.append('aug:open_record_wider_literal')
+    if rng.random() < p_relay:
+        made = relay_rules(prog, ck, rng, idb)
+        if made:
+            kind, new_rules = made
+            for r in new_rules:
+                rules.insert(rng.randint(0, len(rules)), r)
+            labels.append('aug:relay_' + kind)
     p = dict(prog)
     p['rules'] = rules
     p['inj'] = inj
     return p, labels
+
+
+RELAY = 'Tq'
+
+
+def lit_for_type(t, rng, k=0):
+    """A literal expression of a ground type (atoms, lists of atoms, closed records of
+    atoms) or None."""
+    t = find(t)
+    if t.kind == 'Num':
+        return ('lit', rng.choice([0, 4, 11]) + k)
+    if t.kind == 'Str':
+        return ('lit', rng.choice(['b', 'zero', 'q']))
+    if t.kind == 'list' and find(t.elem).kind in ('Num', 'Str'):
+        return ('lit', [lit_for_type(t.elem, rng, i)[1] for i in range(rng.randint(1, 2))])
+    if t.kind == 'rec' and t.closed and t.fields and \
+            all(find(x).kind in ('Num', 'Str') for x in t.fields.values()):
+        return ('rec', tuple((f, lit_for_type(x, rng)) for f, x in sorted(
+            t.fields.items(), key=lambda kv: str(kv[0]))))
+    return None
+
+
+def relay_call(pred, sig, f, var):
+    """`pred(.. f: var ..)` reading column f only: named column by name, positional
+    column c with the positions before it bound to unused variables."""
+    if isinstance(f, int):
+        args = tuple((i, ('var', 'u%d' % i if i != f else var)) for i in range(f + 1))
+    else:
+        args = ((f, ('var', var)),)
+    return ('call', pred, args, ())
+
+
+def relay_columns(prog, ck, idb):
+    """(pred, field, rendered type) of every ground column of a concrete predicate."""
+    out = []
+    seen = []
+    for r in prog['rules']:
+        if r['pred'] not in seen:
+            seen.append(r['pred'])
+    for pred in seen:
+        s = ck.sig.get(pred)
+        if not s or pred in prog.get('inj', {}) or pred == RELAY:
+            continue
+        for f, t in sorted(s.items(), key=lambda kv: str(kv[0])):
+            if f == 'logica_value' or not typeref.ground(t):
+                continue
+            out.append((pred, f, render(t)))
+    return out
+
+
+def relay_rules(prog, ck, rng, idb):
+    """A predicate whose column gets its type ONLY through calls / one fact:
+         Tq(v: x) :- D(f: x);                          (variables only)
+         Tq(v: <literal of D.f's type>);   or   Tq(v: y) :- D2(g: y);
+    The two statements are inserted at independent positions (other predicates' rules
+    stand between them in most orders)."""
+    from lv.model import mk_rule
+    cols = relay_columns(prog, ck, idb)
+    if not cols or any(r['pred'] == RELAY for r in prog['rules']):
+        return None
+    pref = [c for c in cols if c[0] in idb]
+    pred, f, ty = rng.choice(pref) if pref and rng.random() < 0.8 else rng.choice(cols)
+    a = mk_rule(RELAY, (('v', ('var', 'x')),), (relay_call(pred, ck.sig[pred], f, 'x'),))
+    same = [c for c in cols if c[2] == ty and (c[0], c[1]) != (pred, f)]
+    lit = lit_for_type(ck.sig[pred][f], rng)
+    if lit is not None and (not same or rng.random() < 0.6):
+        return 'fact', [a, mk_rule(RELAY, (('v', lit),), ())]
+    if same:
+        p2, f2, _ = rng.choice(same)
+        return 'two_calls', [a, mk_rule(RELAY, (('v', ('var', 'y')),),
+                                        (relay_call(p2, ck.sig[p2], f2, 'y'),))]
+    return None
 
 
 def model_vars(r):
